@@ -798,6 +798,22 @@ def install():
     _rebind(pexpect.pty_spawn, 'which', lambda c, env=None: c)
     pp._EOF = b'\x04'
     pp._INTR = b'\x03'
+    # Two caller threads, each with its own spawn object (scenario flag twin_thread): a pre-emption point right after every
+    # search, i.e. between a searcher computing its result and the engine reading it -- whatever two objects share there
+    # (a cached searcher, class-level scratch attributes) is exposed by the other thread's search in between
+    def _yield_after(cls):
+        orig = cls.search
+
+        def search(self, *a, **kw):
+            res = orig(self, *a, **kw)
+            if W is not None and len(W.threads) > 1 and W.scn.get('twin_thread'):
+                W._yield_point()
+            return res
+        search.__wrapped__ = orig
+        cls.search = search
+    for cls in (pexpect.expect.searcher_string, pexpect.expect.searcher_re):
+        if not hasattr(cls.search, '__wrapped__'):
+            _yield_after(cls)
     # Aliases taken at import time (`_clock = time.monotonic`, `from os import read`, a class attribute holding select.poll):
     # rebinding the module attribute `time` would not reach them, so every global of the modules under test, and every
     # attribute of the classes they define, that IS one of the real functions behind a seam is rebound to its stand-in too.
